@@ -1,11 +1,16 @@
 //! Non-termination monitor for properties whose statement includes "terminates".
 //!
-//! A check brackets each generated case with `begin(tag, bytes)` / `end()`. A monitor thread looks at
-//! the bracket of every worker twice a second; a case that has been open for longer than the limit
-//! (20 s; such cases normally take microseconds) is a violation found by generated input: the monitor
-//! writes the replay file and the evidence itself (the workers are stuck inside the code under test),
-//! prints the VIOLATION line and ends the process with exit code 1. In replay mode the same monitor
-//! turns a stuck replay into a reported violation of the replayed file.
+//! A check brackets each generated case with `begin(tag, bytes)` (or `begin_with(tag, closure)`) / `end()`.
+//! A monitor thread looks at the bracket of every worker twice a second; a case that has been open for
+//! longer than the limit (20 s of wall-clock time AND 10 s of CPU time consumed by the worker thread
+//! while the monitor watched that very case; such cases normally take micro- to milliseconds, so the
+//! verdict does not depend on how busy the machine is) does not terminate. Where the property's statement
+//! includes termination (C03 "terminating", C04 "nor loops forever", C09 "channel selection always
+//! terminates") that is a violation found by generated input: the monitor writes the replay file and the
+//! evidence itself (the workers are stuck inside the code under test), prints the VIOLATION line and ends
+//! the process with exit code 1. For every other property the stuck run is reported as inconclusive
+//! (exit 2) at once instead of after the process-level watchdog. In replay mode the same monitor
+//! reports a stuck replay of the replayed file.
 
 use crate::engine::{fnv64, hex, out_dir, verif_dir};
 use serde_json::{json, Value};
@@ -13,10 +18,31 @@ use std::sync::atomic::{AtomicU64, Ordering};
 use std::sync::{Arc, Mutex, OnceLock};
 use std::time::{Duration, Instant};
 
+type Lazy = Box<dyn FnOnce() -> Vec<u8> + Send>;
+
 pub struct Slot {
     /// milliseconds since process start + 1 at which the open case began; 0 = no case open
     since: AtomicU64,
-    what: Mutex<(&'static str, Vec<u8>)>,
+    what: Mutex<(&'static str, Vec<u8>, Option<Lazy>)>,
+    /// kernel thread id of the worker (0: unknown, CPU time not available)
+    tid: u64,
+}
+
+fn my_tid() -> u64 {
+    std::fs::read_link("/proc/thread-self").ok().and_then(|p| p.file_name().and_then(|n| n.to_str().and_then(|s| s.parse().ok()))).unwrap_or(0)
+}
+
+/// CPU time (user + system) consumed so far by a thread of this process, in milliseconds
+fn thread_cpu_ms(tid: u64) -> Option<u64> {
+    if tid == 0 {
+        return None;
+    }
+    let stat = std::fs::read_to_string(format!("/proc/self/task/{tid}/stat")).ok()?;
+    let rest = &stat[stat.rfind(')')? + 1..];
+    let f: Vec<&str> = rest.split_whitespace().collect();
+    // after "pid (comm)": state is f[0]; utime and stime are the 14th and 15th fields of the line
+    let (u, st): (u64, u64) = (f.get(11)?.parse().ok()?, f.get(12)?.parse().ok()?);
+    Some((u + st) * 10) // USER_HZ = 100 on Linux
 }
 
 static SLOTS: Mutex<Vec<Arc<Slot>>> = Mutex::new(Vec::new());
@@ -25,7 +51,7 @@ static GUARDED: AtomicU64 = AtomicU64::new(0);
 
 thread_local! {
     static MY: Arc<Slot> = {
-        let s = Arc::new(Slot { since: AtomicU64::new(0), what: Mutex::new(("", Vec::new())) });
+        let s = Arc::new(Slot { since: AtomicU64::new(0), what: Mutex::new(("", Vec::new(), None)), tid: my_tid() });
         SLOTS.lock().unwrap().push(s.clone());
         s
     };
@@ -43,6 +69,21 @@ pub fn begin(tag: &'static str, data: &[u8]) {
             w.0 = tag;
             w.1.clear();
             w.1.extend_from_slice(data);
+            w.2 = None;
+        }
+        s.since.store(now_ms(), Ordering::Release);
+    });
+    GUARDED.fetch_add(1, Ordering::Relaxed);
+}
+
+/// Opens a case on the calling thread; the description of the case is only rendered when the monitor needs it.
+pub fn begin_with(tag: &'static str, render: impl FnOnce() -> Vec<u8> + Send + 'static) {
+    MY.with(|s| {
+        {
+            let mut w = s.what.lock().unwrap();
+            w.0 = tag;
+            w.1.clear();
+            w.2 = Some(Box::new(render));
         }
         s.since.store(now_ms(), Ordering::Release);
     });
@@ -54,7 +95,22 @@ pub fn end() {
     MY.with(|s| s.since.store(0, Ordering::Release));
 }
 
+/// RAII form of the bracket: the case is closed when the guard is dropped.
+pub struct Guard(());
+impl Drop for Guard {
+    fn drop(&mut self) {
+        end();
+    }
+}
+pub fn guard_with(tag: &'static str, render: impl FnOnce() -> Vec<u8> + Send + 'static) -> Guard {
+    begin_with(tag, render);
+    Guard(())
+}
+
 pub const LIMIT_S: u64 = 20;
+pub const CPU_LIMIT_S: u64 = 10;
+/// properties whose statement includes termination
+const TERMINATION_IS_STATED: [&str; 3] = ["C03", "C04", "C09"];
 
 /// Starts the monitor. `replay_of`: the file being replayed (replay mode), else None.
 pub fn start_monitor(property: &str, tier: &str, seed: u64, level: &str, replay_of: Option<String>) {
@@ -62,21 +118,63 @@ pub fn start_monitor(property: &str, tier: &str, seed: u64, level: &str, replay_
     let tier = tier.to_string();
     let level = level.to_string();
     let _ = now_ms();
-    std::thread::spawn(move || loop {
+    std::thread::spawn(move || {
+      // per watched slot: (the `since` stamp of the case being watched, CPU time of its thread when first seen)
+      let mut watch: std::collections::HashMap<usize, (u64, Option<u64>)> = std::collections::HashMap::new();
+      loop {
         std::thread::sleep(Duration::from_millis(500));
         let slots: Vec<Arc<Slot>> = SLOTS.lock().unwrap().clone();
-        for s in slots {
+        for (si, s) in slots.into_iter().enumerate() {
             let since = s.since.load(Ordering::Acquire);
-            if since == 0 || now_ms().saturating_sub(since) < LIMIT_S * 1000 {
+            if since == 0 {
+                watch.remove(&si);
                 continue;
             }
+            let cpu_now = thread_cpu_ms(s.tid);
+            let first = match watch.get(&si) {
+                Some((st, c)) if *st == since => *c,
+                _ => {
+                    watch.insert(si, (since, cpu_now));
+                    continue;
+                }
+            };
+            if now_ms().saturating_sub(since) < LIMIT_S * 1000 {
+                continue;
+            }
+            // the thread must have burnt CPU on this very case while it was watched (a machine that is merely
+            // busy, or a stopped process, does not make a case "non-terminating"); without /proc the
+            // wall-clock limit is tripled instead
+            match (first, cpu_now) {
+                (Some(a), Some(b)) => {
+                    if b.saturating_sub(a) < CPU_LIMIT_S * 1000 {
+                        continue;
+                    }
+                }
+                _ => {
+                    if now_ms().saturating_sub(since) < 3 * LIMIT_S * 1000 {
+                        continue;
+                    }
+                }
+            }
             let (tag, data) = {
-                let w = s.what.lock().unwrap();
+                let mut w = s.what.lock().unwrap();
+                let lazy = w.2.take();
+                if let Some(f) = lazy {
+                    w.1 = f();
+                }
                 (w.0, w.1.clone())
             };
-            let case = json!({"kind": tag, "data": hex(&data)});
+            // a case rendered as a JSON document (histories) is the replay case itself; raw inputs are wrapped
+            let as_doc: Option<Value> = if tag == "history" { serde_json::from_slice(&data).ok() } else { None };
+            let case = as_doc.clone().unwrap_or_else(|| json!({"kind": tag, "data": hex(&data)}));
             let fp = format!("non-termination/{tag}");
-            let detail = format!("the case did not return within {LIMIT_S} s (cases of this kind take microseconds): input {}", hex(&data));
+            let shown_input = if as_doc.is_some() { String::from_utf8_lossy(&data).chars().take(1500).collect::<String>() } else { hex(&data) };
+            let detail = format!("the case did not return within {LIMIT_S} s and {CPU_LIMIT_S} s of CPU time (cases of this kind take micro- to milliseconds): input {shown_input}");
+            if !TERMINATION_IS_STATED.contains(&property.as_str()) {
+                println!("INCONCLUSIVE: {property}: a generated case does not return ({fp}); termination is judged by C04 / C09, this run is abandoned");
+                println!("  detail: {detail}");
+                std::process::exit(2);
+            }
             if let Some(path) = &replay_of {
                 println!("VIOLATION property={property} replay={path}");
                 println!("  rule=terminates fingerprint={fp}");
@@ -98,7 +196,7 @@ pub fn start_monitor(property: &str, tier: &str, seed: u64, level: &str, replay_
                 "coverage": {"evaluations": n, "distinct_nontrivial": n.min(1), "exhaustive": false,
                     "rule": "run ended by the non-termination monitor: the counts are the number of guarded cases started before the stuck one (the workers' own classification never completed); non-trivial: the stuck case itself",
                     "samples": [doc["case"].clone()], "classes": {}, "excluded_known": {}},
-                "assumptions": [format!("a guarded case open for more than {LIMIT_S} s does not terminate")],
+                "assumptions": [format!("a guarded case open for more than {LIMIT_S} s whose thread consumed more than {CPU_LIMIT_S} s of CPU time meanwhile does not terminate")],
                 "wall_s": (now_ms() as f64) / 1000.0, "violations": 1,
             });
             let _ = std::fs::create_dir_all(out_dir().join("evidence"));
@@ -106,6 +204,7 @@ pub fn start_monitor(property: &str, tier: &str, seed: u64, level: &str, replay_
             println!("{property}: tier={tier} seed={seed} evaluations={n} violations=1 (non-termination monitor)");
             std::process::exit(1);
         }
+      }
     });
 }
 
